@@ -201,14 +201,15 @@ theorem extend_asRef_eq_append_iff (a : NOM α) (l : List α) :
     · intro h x' hx' _
       cases hx'; exact h
     · intro h; exact h x rfl (by simp)
-  · rename_i a' l' hne
+  · rename_i hne
     simp only [true_iff]
     intro x hx hl
-    subst hx
-    match l', hl, hne with
-    | [], hl, _ => simp at hl
-    | [_], hl, _ => simp at hl
-    | y :: z :: l'', _, hne => exact (hne x y z l'' rfl rfl).elim
+    cases l with
+    | nil => simp at hl
+    | cons y t =>
+      cases t with
+      | nil => simp at hl
+      | cons z l'' => exact (hne x y z l'' hx rfl).elim
 
 /-! ### into_option -/
 theorem intoOption_eq_optionOfNOM (a : NOM α) : a.intoOption = optionOfNOM a := by cases a <;> rfl
@@ -248,7 +249,726 @@ theorem cmpList_eq_iff (l r : List Int) : cmpList l r = .eq ↔ l = r := by
         simp [this]
 
 theorem cmp_eq_iff (a b : NOM Int) : cmp a b = .eq ↔ a = b := by
-  cases a <;> cases b <;> simp [cmp, tag, cmpList_eq_iff, Int.compare_eq_eq, Nat.compare_eq_eq]
+  cases a <;> cases b <;> simp [cmp, tag, cmpList_eq_iff]
 
 end NOM
+
+namespace OOM
+variable {α β : Type}
+
+theorem intoVec_eq (a : OOM α) : a.intoVec = a.asRef := by cases a <;> rfl
+theorem iter_eq (a : OOM α) : a.iter = a.asRef := rfl
+theorem intoIter_eq (a : OOM α) : a.intoIter = a.asRef := by cases a <;> rfl
+
+theorem fromIter_asRef (l : List α) : (fromIter l).asRef = l := by
+  match l with
+  | [] => rfl
+  | [_] => rfl
+  | _ :: _ :: _ => rfl
+
+theorem fromIter_nil : fromIter ([] : List α) = .many [] := rfl
+
+theorem fromIter_canonical_iff (l : List α) : (fromIter l).Canonical ↔ l ≠ [] := by
+  match l with
+  | [] => simp [fromIter, Canonical]
+  | [_] => simp [fromIter, Canonical]
+  | _ :: _ :: _ => simp [fromIter, Canonical]
+
+theorem fromVec_eq_none_iff (l : List α) : fromVec l = none ↔ l = [] := by
+  match l with
+  | [] => simp [fromVec]
+  | [_] => simp [fromVec]
+  | _ :: _ :: _ => simp [fromVec]
+
+theorem fromVec_some {l : List α} {v : OOM α} (h : fromVec l = some v) :
+    v = fromIter l ∧ v.asRef = l ∧ v.Canonical := by
+  match l, h with
+  | [_], h => simp [fromVec] at h; subst h; exact ⟨rfl, rfl, trivial⟩
+  | _ :: _ :: _, h => simp [fromVec] at h; subst h; exact ⟨rfl, rfl, by simp [Canonical]⟩
+
+theorem canonical_ne_nil {a : OOM α} (h : a.Canonical) : a.asRef ≠ [] := by
+  cases a with
+  | one x => simp [asRef]
+  | many l => intro hl; simp [asRef] at hl; subst hl; simp [Canonical] at h
+
+theorem fromIter_asRef_of_canonical {a : OOM α} (h : a.Canonical) : fromIter a.asRef = a := by
+  cases a with
+  | one x => rfl
+  | many l =>
+    match l, h with
+    | _ :: _ :: _, _ => rfl
+
+theorem canonical_ext {a b : OOM α} (ha : a.Canonical) (hb : b.Canonical) (h : a.asRef = b.asRef) :
+    a = b := by
+  rw [← fromIter_asRef_of_canonical ha, ← fromIter_asRef_of_canonical hb, h]
+
+theorem len_eq (a : OOM α) : a.len = a.asRef.length := by cases a <;> rfl
+
+theorem contains_iff [BEq α] [LawfulBEq α] (a : OOM α) (x : α) : a.contains x = true ↔ x ∈ a.asRef := by
+  cases a with
+  | one v => simp only [contains, asRef, beq_iff_eq, List.mem_singleton]; exact eq_comm
+  | many l => simp [contains, asRef]
+
+theorem map_asRef (f : α → β) (a : OOM α) : (a.map f).asRef = a.asRef.map f := by cases a <;> rfl
+
+theorem map_canonical (f : α → β) {a : OOM α} (h : a.Canonical) : (a.map f).Canonical := by
+  cases a <;> simp_all [map, Canonical]
+
+theorem mutAll_eq_map (f : α → α) (a : OOM α) : a.mutAll f = a.map f := by cases a <;> rfl
+
+theorem extend_one_nil (x : α) : (OOM.one x).extend [] = .many [x] := rfl
+theorem extend_many_nil (m : List α) : (OOM.many m).extend [] = .many (m ++ []) := rfl
+
+theorem extend_asRef (a : OOM α) (l : List α) :
+    (a.extend l).asRef =
+      match a, l with
+      | .one x, y :: z :: l' => y :: z :: l' ++ [x]
+      | a, l => a.asRef ++ l := by
+  match a, l with
+  | .one x, [] => rfl
+  | .one x, [y] => rfl
+  | .one x, y :: z :: l' => rfl
+  | .many m, [] => rfl
+  | .many m, [y] => rfl
+  | .many m, y :: z :: l' => rfl
+
+theorem extend_perm (a : OOM α) (l : List α) : (a.extend l).asRef.Perm (a.asRef ++ l) := by
+  rw [extend_asRef]
+  split
+  · rename_i x y z l'
+    simpa [asRef] using List.perm_append_singleton x (y :: z :: l')
+  · exact List.Perm.refl _
+
+theorem extend_len (a : OOM α) (l : List α) : (a.extend l).len = a.len + l.length := by
+  rw [len_eq, len_eq, (extend_perm a l).length_eq, List.length_append]
+
+theorem extend_asRef_eq_append_iff (a : OOM α) (l : List α) :
+    (a.extend l).asRef = a.asRef ++ l ↔
+      ∀ x, a = .one x → 2 ≤ l.length → ∀ y ∈ l, y = x := by
+  rw [extend_asRef]
+  split
+  · rename_i x y z l'
+    simp only [asRef, List.singleton_append]
+    rw [eq_comm, NOM.cons_eq_append_singleton_iff]
+    constructor
+    · intro h x' hx' _
+      cases hx'; exact h
+    · intro h; exact h x rfl (by simp)
+  · rename_i hne
+    simp only [true_iff]
+    intro x hx hl
+    cases l with
+    | nil => simp at hl
+    | cons y t =>
+      cases t with
+      | nil => simp at hl
+      | cons z l'' => exact (hne x y z l'' hx rfl).elim
+
+/-- `extend` keeps the canonical form except when one item is extended by nothing -/
+theorem extend_canonical_iff {a : OOM α} (h : a.Canonical) (l : List α) :
+    (a.extend l).Canonical ↔ ¬ (a.isOne = true ∧ l = []) := by
+  match a, l, h with
+  | .one x, [], _ => simp [extend_one_nil, Canonical, isOne]
+  | .one x, [y], _ => simp [extend, fromIter, Canonical]
+  | .one x, y :: z :: l', _ => simp [extend, fromIter, Canonical]
+  | .many m, [], h => simp [extend_many_nil, Canonical, isOne] at *; exact h
+  | .many m, [y], h => simp [extend, fromIter, Canonical, isOne] at *; omega
+  | .many m, y :: z :: l', h => simp [extend, fromIter, Canonical, isOne] at *; omega
+
+theorem extend_ne_nil {a : OOM α} (h : a.asRef ≠ []) (l : List α) : (a.extend l).asRef ≠ [] := by
+  intro hn
+  have := (extend_perm a l).length_eq
+  rw [hn] at this
+  simp only [List.length_nil, List.length_append] at this
+  exact h (List.length_eq_zero_iff.mp (by omega))
+
+theorem cmp_eq_iff (a b : OOM Int) : cmp a b = .eq ↔ a = b := by
+  cases a <;> cases b <;> simp [cmp, tag, NOM.cmpList_eq_iff]
+
+end OOM
+
+/-! ### shapes -/
+def NOM.shape {α : Type} : NOM α → Spec.Shape
+  | .none => .none
+  | .one _ => .one
+  | .many _ => .many
+
+def OOM.shape {α : Type} : OOM α → Spec.Shape
+  | .one _ => .one
+  | .many _ => .many
+
+theorem NOM.shape_of_canonical {α : Type} {a : NOM α} (h : a.Canonical) : a.shape = Spec.shapeOf a.asRef := by
+  cases a with
+  | none => rfl
+  | one x => rfl
+  | many l =>
+    match l, h with
+    | _ :: _ :: _, _ => simp [shape, Spec.shapeOf, asRef]
+
+theorem OOM.shape_of_canonical {α : Type} {a : OOM α} (h : a.Canonical) : a.shape = Spec.shapeOf a.asRef := by
+  cases a with
+  | one x => rfl
+  | many l =>
+    match l, h with
+    | _ :: _ :: _, _ => simp [shape, Spec.shapeOf, asRef]
+
+/-! ### audit records -/
+namespace ProcessAudit
+variable {ε ω κ : Type}
+
+/-- both collections of the record are in canonical form -/
+def WF (a : ProcessAudit ε ω κ) : Prop := a.outputs.Canonical ∧ a.errors.Canonical
+
+theorem addOutput_outputs (a : ProcessAudit ε ω κ) (o : ω) :
+    (a.addOutput o).outputs.asRef = a.outputs.asRef ++ [o] := by
+  simp only [addOutput, NOM.intoIter]
+  rw [NOM.extend_asRef_eq_append_iff]
+  intro x _ hl; simp at hl
+
+theorem addOutput_errors (a : ProcessAudit ε ω κ) (o : ω) : (a.addOutput o).errors = a.errors := rfl
+theorem addOutput_event (a : ProcessAudit ε ω κ) (o : ω) : (a.addOutput o).event = a.event := rfl
+theorem addErrors_outputs (a : ProcessAudit ε ω κ) (es : List κ) : (a.addErrors es).outputs = a.outputs := rfl
+theorem addErrors_event (a : ProcessAudit ε ω κ) (es : List κ) : (a.addErrors es).event = a.event := rfl
+
+theorem addErrors_errors_perm (a : ProcessAudit ε ω κ) (es : List κ) :
+    (a.addErrors es).errors.asRef.Perm (a.errors.asRef ++ es) := NOM.extend_perm _ _
+
+theorem addErrors_errors_eq_iff (a : ProcessAudit ε ω κ) (es : List κ) :
+    (a.addErrors es).errors.asRef = a.errors.asRef ++ es ↔
+      ∀ x, a.errors = .one x → 2 ≤ es.length → ∀ y ∈ es, y = x := NOM.extend_asRef_eq_append_iff _ _
+
+theorem addErrors_of_none {a : ProcessAudit ε ω κ} (h : a.errors = .none) (es : List κ) :
+    (a.addErrors es).errors = NOM.fromIter es := by
+  simp [addErrors, h, NOM.extend_none]
+
+theorem addOutput_wf {a : ProcessAudit ε ω κ} (h : a.WF) (o : ω) : (a.addOutput o).WF :=
+  ⟨NOM.extend_canonical h.1 _, h.2⟩
+
+theorem addErrors_wf {a : ProcessAudit ε ω κ} (h : a.WF) (es : List κ) : (a.addErrors es).WF :=
+  ⟨h.1, NOM.extend_canonical h.2 _⟩
+
+theorem withEvent_wf (e : ε) : (withEvent e : ProcessAudit ε ω κ).WF := ⟨trivial, trivial⟩
+theorem withOutput_wf (e : ε) (o : ω) : (withOutput e o : ProcessAudit ε ω κ).WF := ⟨trivial, trivial⟩
+
+theorem isTerminal_iff {a : ProcessAudit ε ω κ} (h : a.errors.Canonical) (t : ε → Bool) :
+    a.isTerminal t = true ↔ t a.event = true ∨ a.errors.asRef ≠ [] := by
+  have := NOM.isEmpty_iff_of_canonical h
+  simp only [isTerminal, Bool.or_eq_true, Bool.not_eq_eq_eq_not, Bool.not_true]
+  constructor
+  · rintro (h1 | h2)
+    · exact Or.inl h1
+    · right; intro hn; rw [this.mpr hn] at h2; cases h2
+  · rintro (h1 | h2)
+    · exact Or.inl h1
+    · right
+      cases he : a.errors.isEmpty with
+      | false => rfl
+      | true => exact absurd (this.mp he) h2
+
+end ProcessAudit
+
+/-! ### action outputs -/
+namespace SendRequestsOutput
+variable {ρ ρ' κ : Type}
+
+theorem ofResults_sent (rs : List (ρ × Option (EngineError ρ' κ))) :
+    (ofResults rs).sent.asRef = rs.filterMap sentOf := by
+  simp [ofResults, NOM.fromVec_eq_fromIter, NOM.fromIter_asRef]
+
+theorem ofResults_errors (rs : List (ρ × Option (EngineError ρ' κ))) :
+    (ofResults rs).errors.asRef = rs.filterMap errorOf := by
+  simp [ofResults, NOM.fromVec_eq_fromIter, NOM.fromIter_asRef]
+
+theorem ofResults_canonical (rs : List (ρ × Option (EngineError ρ' κ))) :
+    (ofResults rs).sent.Canonical ∧ (ofResults rs).errors.Canonical := by
+  simp only [ofResults, NOM.fromVec_eq_fromIter]
+  exact ⟨NOM.fromIter_canonical _, NOM.fromIter_canonical _⟩
+
+theorem unrecoverableErrors_canonical (s : SendRequestsOutput ρ ρ' κ) : s.unrecoverableErrors.Canonical :=
+  NOM.fromIter_canonical _
+
+theorem unrecoverableErrors_asRef (s : SendRequestsOutput ρ ρ' κ) :
+    s.unrecoverableErrors.asRef = s.errors.asRef.filterMap unrecOf := by
+  simp [unrecoverableErrors, NOM.fromIter_asRef, NOM.iter_eq]
+
+/-- in request order -/
+theorem unrecoverableErrors_ofResults (rs : List (ρ × Option (EngineError ρ' κ))) :
+    (ofResults rs).unrecoverableErrors.asRef = Spec.unrecoverable rs := by
+  rw [unrecoverableErrors_asRef, ofResults_errors, List.filterMap_filterMap]
+  unfold Spec.unrecoverable
+  congr 1
+  funext ⟨r, e⟩
+  cases e with
+  | none => rfl
+  | some e => cases e <;> rfl
+
+theorem isEmpty_ofResults (rs : List (ρ × Option (EngineError ρ' κ))) :
+    (ofResults rs).isEmpty = rs.isEmpty := by
+  cases rs with
+  | nil => rfl
+  | cons p ps =>
+    obtain ⟨r, e⟩ := p
+    simp only [List.isEmpty_cons]
+    have hc := ofResults_canonical ((r, e) :: ps)
+    cases e with
+    | none =>
+      have : (ofResults ((r, (none : Option (EngineError ρ' κ))) :: ps)).sent.asRef ≠ [] := by
+        rw [ofResults_sent]; simp [sentOf]
+      have h2 : (ofResults ((r, (none : Option (EngineError ρ' κ))) :: ps)).sent.isNone = false := by
+        cases h : (ofResults ((r, (none : Option (EngineError ρ' κ))) :: ps)).sent.isNone with
+        | false => rfl
+        | true => exact absurd (NOM.isEmpty_imp _ h) this
+      simp [isEmpty, h2]
+    | some e =>
+      have : (ofResults ((r, some e) :: ps)).errors.asRef ≠ [] := by
+        rw [ofResults_errors]; simp [errorOf]
+      have h2 : (ofResults ((r, some e) :: ps)).errors.isNone = false := by
+        cases h : (ofResults ((r, some e) :: ps)).errors.isNone with
+        | false => rfl
+        | true => exact absurd (NOM.isEmpty_imp _ h) this
+      simp [isEmpty, h2]
+
+end SendRequestsOutput
+
+namespace SendCancelsAndOpensOutput
+variable {ρc ρo ρ' κ : Type}
+
+theorem unrecoverableErrors_canonical (x : SendCancelsAndOpensOutput ρc ρo ρ' κ) :
+    x.unrecoverableErrors.Canonical :=
+  NOM.extend_canonical (SendRequestsOutput.unrecoverableErrors_canonical _) _
+
+theorem unrecoverableErrors_perm (x : SendCancelsAndOpensOutput ρc ρo ρ' κ) :
+    x.unrecoverableErrors.asRef.Perm
+      (x.cancels.unrecoverableErrors.asRef ++ x.opens.unrecoverableErrors.asRef) := by
+  simpa [unrecoverableErrors, NOM.intoIter_eq] using
+    NOM.extend_perm x.cancels.unrecoverableErrors x.opens.unrecoverableErrors.asRef
+
+theorem unrecoverableErrors_eq_iff (x : SendCancelsAndOpensOutput ρc ρo ρ' κ) :
+    x.unrecoverableErrors.asRef =
+        x.cancels.unrecoverableErrors.asRef ++ x.opens.unrecoverableErrors.asRef ↔
+      ∀ k, x.cancels.unrecoverableErrors = .one k → 2 ≤ x.opens.unrecoverableErrors.asRef.length →
+        ∀ y ∈ x.opens.unrecoverableErrors.asRef, y = k := by
+  simpa [unrecoverableErrors, NOM.intoIter_eq] using
+    NOM.extend_asRef_eq_append_iff x.cancels.unrecoverableErrors x.opens.unrecoverableErrors.asRef
+
+end SendCancelsAndOpensOutput
+
+
+/-! ### register machine: one step -/
+
+/-- literal values are canonical -/
+def NOp.Safe : NOp → Prop
+  | .raw v => v.Canonical
+  | _ => True
+
+/-- this `extend` step is not the reversing arm -/
+def NOp.keepsOrder (n : NOM Int) : NOp → Prop
+  | .ext l => ∀ x, n = .one x → 2 ≤ l.length → ∀ y ∈ l, y = x
+  | .extN v => ∀ x, n = .one x → 2 ≤ v.asRef.length → ∀ y ∈ v.asRef, y = x
+  | _ => True
+
+def KeepsOrderN : NOM Int → List NOp → Prop
+  | _, [] => True
+  | n, op :: ops => op.keepsOrder n ∧ KeepsOrderN (op.apply n) ops
+
+theorem NOp.apply_canonical {n : NOM Int} (hn : n.Canonical) {op : NOp} (h : op.Safe) :
+    (op.apply n).Canonical := by
+  cases op with
+  | raw v => exact h
+  | vec l => simp only [apply, NOM.fromVec_eq_fromIter]; exact NOM.fromIter_canonical l
+  | iter l => exact NOM.fromIter_canonical l
+  | opt o => exact NOM.fromOption_canonical o
+  | dflt => trivial
+  | ext l => exact NOM.extend_canonical hn l
+  | extN v => exact NOM.extend_canonical hn _
+  | map k => exact NOM.map_canonical _ hn
+  | mutate k => simp only [apply, NOM.mutAll_eq_map]; exact NOM.map_canonical _ hn
+
+theorem NOp.apply_perm {n : NOM Int} {s : List Int} (h : n.asRef.Perm s) (op : NOp) :
+    (op.apply n).asRef.Perm (op.applySpec s) := by
+  cases op with
+  | raw v => exact List.Perm.refl _
+  | vec l => simp [apply, applySpec, NOM.fromVec_eq_fromIter, NOM.fromIter_asRef, Spec.fromItems]
+  | iter l => simp [apply, applySpec, NOM.fromIter_asRef, Spec.fromItems]
+  | opt o => simp [apply, applySpec, NOM.fromOption_asRef, Spec.fromOption]
+  | dflt => exact List.Perm.refl _
+  | ext l => exact (NOM.extend_perm n l).trans (h.append_right l)
+  | extN v =>
+    simp only [apply, applySpec, NOM.intoIter_eq]
+    exact (NOM.extend_perm n v.asRef).trans (h.append_right _)
+  | map k => simp only [apply, applySpec, NOM.map_asRef, Spec.map]; exact h.map _
+  | mutate k => simp only [apply, applySpec, NOM.mutAll_eq_map, NOM.map_asRef, Spec.map]; exact h.map _
+
+theorem NOp.apply_exact (n : NOM Int) {op : NOp} (h : op.keepsOrder n) :
+    (op.apply n).asRef = op.applySpec n.asRef := by
+  cases op with
+  | raw v => rfl
+  | vec l => simp [apply, applySpec, NOM.fromVec_eq_fromIter, NOM.fromIter_asRef, Spec.fromItems]
+  | iter l => simp [apply, applySpec, NOM.fromIter_asRef, Spec.fromItems]
+  | opt o => simp [apply, applySpec, NOM.fromOption_asRef, Spec.fromOption]
+  | dflt => rfl
+  | ext l => exact (NOM.extend_asRef_eq_append_iff n l).mpr h
+  | extN v =>
+    simp only [apply, applySpec, NOM.intoIter_eq]
+    exact (NOM.extend_asRef_eq_append_iff n v.asRef).mpr h
+  | map k => simp [apply, applySpec, NOM.map_asRef, Spec.map]
+  | mutate k => simp [apply, applySpec, NOM.mutAll_eq_map, NOM.map_asRef, Spec.map]
+
+/-- literal values are non-empty, `from_iter` gets at least one item -/
+def OOp.Safe : OOp → Prop
+  | .raw v => v.asRef ≠ []
+  | .iter l => l ≠ []
+  | _ => True
+
+def OOp.keepsOrder (o : OOM Int) : OOp → Prop
+  | .ext l => ∀ x, o = .one x → 2 ≤ l.length → ∀ y ∈ l, y = x
+  | .extO v => ∀ x, o = .one x → 2 ≤ v.asRef.length → ∀ y ∈ v.asRef, y = x
+  | _ => True
+
+def KeepsOrderO : OOM Int → List OOp → Prop
+  | _, [] => True
+  | o, op :: ops => op.keepsOrder o ∧ KeepsOrderO ((op.apply o).getD o) ops
+
+theorem OOp.apply_none_iff (o : OOM Int) (s : List Int) (op : OOp) :
+    op.apply o = none ↔ op.applySpec s = none := by
+  cases op with
+  | vec l => simp [apply, applySpec, OOM.fromVec_eq_none_iff]
+  | _ => simp [apply, applySpec]
+
+theorem OOp.apply_perm {o : OOM Int} {s : List Int} (h : o.asRef.Perm s) (op : OOp) :
+    ((op.apply o).getD o).asRef.Perm ((op.applySpec s).getD s) := by
+  cases op with
+  | raw v => exact List.Perm.refl _
+  | item x => exact List.Perm.refl _
+  | dflt => exact List.Perm.refl _
+  | vec l =>
+    cases hv : OOM.fromVec l with
+    | none =>
+      have := (OOM.fromVec_eq_none_iff l).mp hv
+      subst this
+      simpa [apply, applySpec, hv] using h
+    | some v =>
+      have hl : l ≠ [] := fun hl => by rw [(OOM.fromVec_eq_none_iff l).mpr hl] at hv; cases hv
+      have := (OOM.fromVec_some hv).2.1
+      simp [apply, applySpec, hv, this, hl]
+  | iter l => simp [apply, applySpec, OOM.fromIter_asRef]
+  | ext l => exact (OOM.extend_perm o l).trans (h.append_right l)
+  | extO v =>
+    simp only [apply, applySpec, OOM.intoIter_eq, Option.getD_some]
+    exact (OOM.extend_perm o v.asRef).trans (h.append_right _)
+  | map k => simp only [apply, applySpec, OOM.map_asRef, Spec.map, Option.getD_some]; exact h.map _
+  | mutate k =>
+    simp only [apply, applySpec, OOM.mutAll_eq_map, OOM.map_asRef, Spec.map, Option.getD_some]
+    exact h.map _
+
+theorem OOp.apply_exact (o : OOM Int) {op : OOp} (h : op.keepsOrder o) :
+    ((op.apply o).getD o).asRef = (op.applySpec o.asRef).getD o.asRef := by
+  cases op with
+  | raw v => rfl
+  | item x => rfl
+  | dflt => rfl
+  | vec l =>
+    cases hv : OOM.fromVec l with
+    | none =>
+      have := (OOM.fromVec_eq_none_iff l).mp hv
+      subst this
+      simp [apply, applySpec, hv]
+    | some v =>
+      have hl : l ≠ [] := fun hl => by rw [(OOM.fromVec_eq_none_iff l).mpr hl] at hv; cases hv
+      have := (OOM.fromVec_some hv).2.1
+      simp [apply, applySpec, hv, this, hl]
+  | iter l => simp [apply, applySpec, OOM.fromIter_asRef]
+  | ext l => exact (OOM.extend_asRef_eq_append_iff o l).mpr h
+  | extO v =>
+    simp only [apply, applySpec, OOM.intoIter_eq, Option.getD_some]
+    exact (OOM.extend_asRef_eq_append_iff o v.asRef).mpr h
+  | map k => simp [apply, applySpec, OOM.map_asRef, Spec.map]
+  | mutate k => simp [apply, applySpec, OOM.mutAll_eq_map, OOM.map_asRef, Spec.map]
+
+theorem OOp.apply_nonempty {o : OOM Int} (ho : o.asRef ≠ []) {op : OOp} (h : op.Safe) :
+    ((op.apply o).getD o).asRef ≠ [] := by
+  cases op with
+  | raw v => exact h
+  | item x => simp [apply, OOM.fromItem, OOM.asRef]
+  | dflt => simp [apply, OOM.default, OOM.asRef]
+  | vec l =>
+    cases hv : OOM.fromVec l with
+    | none => simpa [apply, hv] using ho
+    | some v =>
+      have hl : l ≠ [] := fun hl => by rw [(OOM.fromVec_eq_none_iff l).mpr hl] at hv; cases hv
+      simpa [apply, hv, (OOM.fromVec_some hv).2.1] using hl
+  | iter l => simpa [apply, OOM.fromIter_asRef, Safe] using h
+  | ext l => exact OOM.extend_ne_nil ho l
+  | extO v => exact OOM.extend_ne_nil ho _
+  | map k => simpa [apply, OOM.map_asRef] using ho
+  | mutate k => simpa [apply, OOM.mutAll_eq_map, OOM.map_asRef] using ho
+
+/-- relation between the audit register and its abstract counterpart -/
+def AuditRel (a : AuditReg) (s : Bool × Spec.Audit Out Int) : Prop :=
+  a.event = s.1 ∧ a.outputs.asRef = s.2.outputs ∧ a.errors.asRef.Perm s.2.errors ∧ a.WF
+
+def AOp.keepsOrder (a : AuditReg) : AOp → Prop
+  | .addErrors es => ∀ x, a.errors = .one x → 2 ≤ es.length → ∀ y ∈ es, y = x
+  | .withProcessAndErr es => ∀ x, a.errors = .one x → 2 ≤ es.length → ∀ y ∈ es, y = x
+  | _ => True
+
+def KeepsOrderA : AuditReg → List AOp → Prop
+  | _, [] => True
+  | a, op :: ops => op.keepsOrder a ∧ KeepsOrderA (op.apply a) ops
+
+theorem AOp.apply_rel {a : AuditReg} {s : Bool × Spec.Audit Out Int} (h : AuditRel a s) (op : AOp) :
+    AuditRel (op.apply a) (op.applySpec s) := by
+  obtain ⟨h1, h2, h3, h4⟩ := h
+  cases op with
+  | withEvent t => exact ⟨rfl, rfl, List.Perm.refl _, trivial, trivial⟩
+  | withOutput t o => exact ⟨rfl, rfl, List.Perm.refl _, trivial, trivial⟩
+  | outputAndErrs t o errs =>
+    refine ⟨rfl, rfl, ?_, trivial, NOM.fromIter_canonical _⟩
+    simp [apply, applySpec, EngineAudit.processWithOutputAndErrs, NOM.fromIter_asRef]
+  | tradingState t d =>
+    cases d <;> exact ⟨rfl, rfl, List.Perm.refl _, trivial, trivial⟩
+  | account t kind d =>
+    by_cases h0 : kind = 0
+    · subst h0; exact ⟨rfl, rfl, List.Perm.refl _, trivial, trivial⟩
+    · by_cases h1' : kind = 1
+      · subst h1'; exact ⟨rfl, rfl, List.Perm.refl _, trivial, trivial⟩
+      · refine ⟨?_, ?_, ?_, ?_⟩ <;>
+          simp [apply, applySpec, h0, h1', ProcessAudit.withAccountUpdate, ProcessAudit.withOutput,
+            NOM.asRef, ProcessAudit.WF, NOM.Canonical]
+  | market t d =>
+    cases d <;> exact ⟨rfl, rfl, List.Perm.refl _, trivial, trivial⟩
+  | addOutput o =>
+    refine ⟨h1, ?_, h3, ProcessAudit.addOutput_wf h4 o⟩
+    simp [apply, applySpec, ProcessAudit.addOutput_outputs, Spec.Audit.addOutput, h2]
+  | addErrors es =>
+    refine ⟨h1, h2, ?_, ProcessAudit.addErrors_wf h4 es⟩
+    exact (ProcessAudit.addErrors_errors_perm a es).trans (h3.append_right es)
+  | withProcessAndErr es =>
+    refine ⟨h1, h2, ?_, ProcessAudit.addErrors_wf h4 es⟩
+    exact (ProcessAudit.addErrors_errors_perm a es).trans (h3.append_right es)
+
+theorem AOp.apply_errors_exact (a : AuditReg) (s : Bool × Spec.Audit Out Int)
+    (he : a.errors.asRef = s.2.errors) {op : AOp} (h : op.keepsOrder a) :
+    (op.apply a).errors.asRef = (op.applySpec s).2.errors := by
+  cases op with
+  | withEvent t => rfl
+  | withOutput t o => rfl
+  | outputAndErrs t o errs =>
+    simp [apply, applySpec, EngineAudit.processWithOutputAndErrs, NOM.fromIter_asRef]
+  | tradingState t d => cases d <;> rfl
+  | account t kind d =>
+    by_cases h0 : kind = 0
+    · subst h0; rfl
+    · by_cases h1' : kind = 1
+      · subst h1'; rfl
+      · simp [apply, applySpec, h0, h1', ProcessAudit.withAccountUpdate, ProcessAudit.withOutput, NOM.asRef]
+  | market t d => cases d <;> rfl
+  | addOutput o => simpa [apply, applySpec, Spec.Audit.addOutput, ProcessAudit.addOutput_errors] using he
+  | addErrors es =>
+    have := (ProcessAudit.addErrors_errors_eq_iff a es).mpr h
+    simp only [apply, applySpec, Spec.Audit.addErrors, this, he]
+  | withProcessAndErr es =>
+    have := (ProcessAudit.addErrors_errors_eq_iff a es).mpr h
+    simp only [apply, applySpec, EngineAudit.withProcessAndErr, Spec.Audit.addErrors, this, he]
+
+theorem AuditRel.terminal {a : AuditReg} {s : Bool × Spec.Audit Out Int} (h : AuditRel a s) :
+    a.isTerminal id = Spec.Audit.terminal s.1 s.2 := by
+  obtain ⟨h1, _, h3, h4⟩ := h
+  rw [Bool.eq_iff_iff, ProcessAudit.isTerminal_iff h4.2]
+  simp only [Spec.Audit.terminal, id, h1, Bool.or_eq_true, bne_iff_ne, ne_eq]
+  have : a.errors.asRef = [] ↔ s.2.errors.length = 0 := by
+    rw [← h3.length_eq]; exact List.length_eq_zero_iff.symm
+  rw [this]
+
+
+/-! ### the audit assembly of `Engine::process` -/
+
+/-- the errors the generation stage contributes -/
+def algoErrors {ω κ : Type} (a : AlgoView ω κ) : NOM κ :=
+  if a.isEmpty then .none
+  else match a.unrecoverable with
+    | some u => NOM.fromIter u.intoIter
+    | none => .none
+
+/-- the errors of the assembled audit, read off the inputs -/
+def assembleErrors {ε ω κ : Type} (pre : Pre ε ω κ) (algo : Option (AlgoView ω κ)) : NOM κ :=
+  match pre with
+  | .shutdown _ => .none
+  | .commandFatal _ u _ => NOM.fromIter u.intoIter
+  | _ =>
+    match algo with
+    | none => .none
+    | some a => algoErrors a
+
+/-- `add_errors` is only ever applied to a record without errors (so it is `from_iter`), and the
+record is in canonical form. -/
+theorem assemble_spec {ε ω κ : Type} (pre : Pre ε ω κ) (algo : Option (AlgoView ω κ)) :
+    ∃ p, assemble pre algo = .process p ∧ p.event = pre.audit.event ∧
+      p.errors = assembleErrors pre algo ∧ p.WF ∧
+      (∀ a u, algo = some a → a.isEmpty = false → a.unrecoverable = some u →
+        (∀ e, pre ≠ .shutdown e) → (∀ e u' o, pre ≠ .commandFatal e u' o) →
+        pre.audit.errors = .none ∧ p = pre.audit.addErrors u.intoIter) := by
+  cases pre with
+  | shutdown e =>
+    exact ⟨_, rfl, rfl, rfl, ⟨trivial, trivial⟩, fun _ _ _ _ _ h _ => absurd rfl (h e)⟩
+  | commandFatal e u o =>
+    exact ⟨_, rfl, rfl, rfl, ⟨trivial, NOM.fromIter_canonical _⟩,
+      fun _ _ _ _ _ _ h => absurd rfl (h e u o)⟩
+  | command e o =>
+    cases algo with
+    | none => exact ⟨_, rfl, rfl, rfl, ⟨trivial, trivial⟩, fun _ _ h => by cases h⟩
+    | some a =>
+      cases hE : a.isEmpty with
+      | true =>
+        refine ⟨(Pre.command e o).audit, by simp [assemble, hE], rfl,
+          by simp [assembleErrors, algoErrors, hE, Pre.audit, ProcessAudit.withOutput], ⟨trivial, trivial⟩, ?_⟩
+        intro a' u h1 h2; cases h1; rw [hE] at h2; cases h2
+      | false =>
+        cases hU : a.unrecoverable with
+        | some u =>
+          refine ⟨(Pre.command e o).audit.addErrors u.intoIter, by simp [assemble, hE, hU], rfl, ?_,
+            ProcessAudit.addErrors_wf (ProcessAudit.withOutput_wf e o) _, ?_⟩
+          · simp [assembleErrors, algoErrors, hE, hU, Pre.audit, ProcessAudit.withOutput, ProcessAudit.addErrors,
+              NOM.extend_none]
+          · intro a' u' h1 _ h3 _ _; cases h1; rw [hU] at h3; cases h3; exact ⟨rfl, rfl⟩
+        | none =>
+          refine ⟨(Pre.command e o).audit.addOutput a.asOutput, by simp [assemble, hE, hU], rfl, ?_,
+            ProcessAudit.addOutput_wf (ProcessAudit.withOutput_wf e o) _, ?_⟩
+          · simp [assembleErrors, algoErrors, hE, hU, Pre.audit, ProcessAudit.withOutput, ProcessAudit.addOutput]
+          · intro a' u' h1 _ h3; cases h1; rw [hU] at h3; cases h3
+  | update e o =>
+    have hwf : (Pre.update e o : Pre ε ω κ).audit.WF := by cases o <;> exact ⟨trivial, trivial⟩
+    have herr : (Pre.update e o : Pre ε ω κ).audit.errors = .none := by cases o <;> rfl
+    cases algo with
+    | none =>
+      exact ⟨(Pre.update e o).audit, by simp [assemble], rfl, by simp [assembleErrors, herr], hwf,
+        fun _ _ h => by cases h⟩
+    | some a =>
+      cases hE : a.isEmpty with
+      | true =>
+        refine ⟨(Pre.update e o).audit, by simp [assemble, hE], rfl, by simp [assembleErrors, algoErrors, hE, herr],
+          hwf, ?_⟩
+        intro a' u h1 h2; cases h1; rw [hE] at h2; cases h2
+      | false =>
+        cases hU : a.unrecoverable with
+        | some u =>
+          refine ⟨(Pre.update e o).audit.addErrors u.intoIter, by simp [assemble, hE, hU], rfl, ?_,
+            ProcessAudit.addErrors_wf hwf _, ?_⟩
+          · simp [assembleErrors, algoErrors, hE, hU, ProcessAudit.addErrors, herr, NOM.extend_none]
+          · intro a' u' h1 _ h3 _ _; cases h1; rw [hU] at h3; cases h3; exact ⟨herr, rfl⟩
+        | none =>
+          refine ⟨(Pre.update e o).audit.addOutput a.asOutput, by simp [assemble, hE, hU], rfl, ?_,
+            ProcessAudit.addOutput_wf hwf _, ?_⟩
+          · simp [assembleErrors, algoErrors, hE, hU, ProcessAudit.addOutput, herr]
+          · intro a' u' h1 _ h3; cases h1; rw [hU] at h3; cases h3
+
+
+/-! ### one `Engine::process` -/
+
+theorem NOM.intoOption_none_iff_of_canonical {α : Type} {a : NOM α} (h : a.Canonical) :
+    a.intoOption = Option.none ↔ a.asRef = [] := by
+  cases a with
+  | none => simp [NOM.intoOption, NOM.asRef]
+  | one x => simp [NOM.intoOption, NOM.asRef]
+  | many l =>
+    simp only [NOM.intoOption, NOM.asRef, reduceCtorEq, false_iff]
+    intro hl; subst hl; simp [NOM.Canonical] at h
+
+theorem unrecoverable_sendResults (dead : Nat → Bool) (reqs : List Req) :
+    Spec.unrecoverable (reqs.map fun r =>
+      (r, if dead r.1 then some (EngineError.unrecoverable (ρ' := Unit) r.1) else none)) =
+      failedSends dead reqs := by
+  induction reqs with
+  | nil => rfl
+  | cons r rs ih =>
+    unfold Spec.unrecoverable failedSends at *
+    rw [List.map_cons, List.filterMap_cons, ih, List.filter_cons]
+    by_cases h : dead r.1 = true <;> simp [h, Spec.unrecoverableOf]
+
+theorem sendRequests_unrec (dead : Nat → Bool) (reqs : List Req) :
+    (sendRequests dead reqs).unrecoverableErrors.asRef = failedSends dead reqs := by
+  rw [sendRequests, SendRequestsOutput.unrecoverableErrors_ofResults, unrecoverable_sendResults]
+
+theorem sendRequests_isEmpty_unrec (dead : Nat → Bool) (reqs : List Req)
+    (h : (sendRequests dead reqs).isEmpty = true) : failedSends dead reqs = [] := by
+  rw [sendRequests, SendRequestsOutput.isEmpty_ofResults] at h
+  cases reqs with
+  | nil => rfl
+  | cons r rs => simp at h
+
+/-- the errors the generation stage contributes to the audit -/
+def stageErrors (g : GenOut) : NOM Nat :=
+  algoErrors (⟨g.isEmpty, g.unrecoverableErrors, Out.algo⟩ : AlgoView Out Nat)
+
+theorem generateAlgoOrders_cancels (dead : Nat → Bool) (c o : List Req) :
+    (generateAlgoOrders dead c o).cancelsAndOpens.cancels = sendRequests dead (c.filter (!refused ·)) := rfl
+
+theorem generateAlgoOrders_opens (dead : Nat → Bool) (c o : List Req) :
+    (generateAlgoOrders dead c o).cancelsAndOpens.opens = sendRequests dead (o.filter (!refused ·)) := rfl
+
+theorem stageErrors_asRef (dead : Nat → Bool) (c o : List Req) :
+    (stageErrors (generateAlgoOrders dead c o)).asRef =
+      (generateAlgoOrders dead c o).cancelsAndOpens.unrecoverableErrors.asRef := by
+  have hc := SendCancelsAndOpensOutput.unrecoverableErrors_canonical
+    (generateAlgoOrders dead c o).cancelsAndOpens
+  have hp := SendCancelsAndOpensOutput.unrecoverableErrors_perm
+    (generateAlgoOrders dead c o).cancelsAndOpens
+  unfold stageErrors algoErrors
+  split
+  · rename_i hE
+    simp only [GenerateAlgoOrdersOutput.isEmpty, SendCancelsAndOpensOutput.isEmpty, Bool.and_eq_true] at hE
+    rw [generateAlgoOrders_cancels, generateAlgoOrders_opens] at hE
+    have h1 := sendRequests_isEmpty_unrec dead _ hE.1.1.1
+    have h2 := sendRequests_isEmpty_unrec dead _ hE.1.1.2
+    rw [generateAlgoOrders_cancels, generateAlgoOrders_opens, sendRequests_unrec, sendRequests_unrec,
+      h1, h2] at hp
+    have hx : (generateAlgoOrders dead c o).cancelsAndOpens.unrecoverableErrors.asRef = [] := by
+      simpa using hp
+    rw [hx]; rfl
+  · simp only [GenerateAlgoOrdersOutput.unrecoverableErrors]
+    cases hU : (generateAlgoOrders dead c o).cancelsAndOpens.unrecoverableErrors.intoOption with
+    | none => rw [(NOM.intoOption_none_iff_of_canonical hc).mp hU]; rfl
+    | some u => rw [NOM.fromIter_asRef, OOM.intoIter_eq, NOM.intoOption_asRef hU]
+
+theorem stageErrors_canonical (g : GenOut) : (stageErrors g).Canonical := by
+  unfold stageErrors algoErrors
+  split
+  · trivial
+  · split
+    · exact NOM.fromIter_canonical _
+    · trivial
+
+theorem stageErrors_perm (dead : Nat → Bool) (c o : List Req) :
+    (stageErrors (generateAlgoOrders dead c o)).asRef.Perm
+      (failedSends dead (c.filter (!refused ·)) ++ failedSends dead (o.filter (!refused ·))) := by
+  rw [stageErrors_asRef]
+  have hp := SendCancelsAndOpensOutput.unrecoverableErrors_perm
+    (generateAlgoOrders dead c o).cancelsAndOpens
+  rwa [generateAlgoOrders_cancels, generateAlgoOrders_opens, sendRequests_unrec, sendRequests_unrec] at hp
+
+theorem stageErrors_exact (dead : Nat → Bool) (c o : List Req)
+    (h : ¬ ((failedSends dead (c.filter (!refused ·))).length = 1 ∧
+            2 ≤ (failedSends dead (o.filter (!refused ·))).length)) :
+    (stageErrors (generateAlgoOrders dead c o)).asRef =
+      failedSends dead (c.filter (!refused ·)) ++ failedSends dead (o.filter (!refused ·)) := by
+  rw [stageErrors_asRef]
+  have he := SendCancelsAndOpensOutput.unrecoverableErrors_eq_iff
+    (generateAlgoOrders dead c o).cancelsAndOpens
+  rw [generateAlgoOrders_cancels, generateAlgoOrders_opens, sendRequests_unrec, sendRequests_unrec] at he
+  apply he.mpr
+  intro k hk hl
+  exfalso; apply h
+  refine ⟨?_, hl⟩
+  rw [← sendRequests_unrec, hk]; rfl
+
+theorem assembleErrors_nonfatal {ε : Type} (pre : Pre ε Out Nat) (en : Bool) (g : GenOut)
+    (h1 : ∀ e, pre ≠ .shutdown e) (h2 : ∀ e u o, pre ≠ .commandFatal e u o) :
+    assembleErrors pre (if en then some ⟨g.isEmpty, g.unrecoverableErrors, .algo⟩ else none) =
+      if en then stageErrors g else .none := by
+  cases pre with
+  | shutdown e => exact absurd rfl (h1 e)
+  | commandFatal e u o => exact absurd rfl (h2 e u o)
+  | command e o => cases en <;> rfl
+  | update e o => cases en <;> rfl
+
 end BarterModel.Collections
